@@ -104,6 +104,7 @@ func initTargets() {
 	}
 	// a generic instantiation (its wrapper is decoded before the patch lock is taken)
 	mk("G1", 20, t.GenInt, t.GenK, -1)
+	mk("G2", 21, t.Gen2Int, t.Gen2K, -1)
 	for i := range t.Bs {
 		if i != far && n <= 9 {
 			ph := -1
@@ -195,11 +196,26 @@ const seq1, seq2 = 8100001, 8100002
 
 var steadySeq bool
 
+// failFirst[name]: the mocker thread of this target starts with a refused apply (scenario option).
+var failFirst = map[string]bool{}
+
 // mockerBody is the per-builder script: apply a callback, call, re-stub with Return, call,
 // reset, call. Observations are appended to out.
 func mockerBody(tg *target, out *[]obs, yield func(string)) {
 	b := mocker.Create()
 	arg := 5 + tg.idx
+	if failFirst[tg.name] {
+		// this builder first makes an apply that goom has to refuse (origin placeholder on a function
+		// whose prologue cannot be relocated) and recovers from it, as a test using assert.Panics would
+		o := t.OLoopT
+		_, refused := vk.Try(func() { b.Func(t.LoopT).Origin(&o).Apply(func(a int) int { return o(a) + 1 }) })
+		want := 0
+		if refused {
+			want = 1
+		}
+		*out = append(*out, obs{tg.name, "an origin apply on a function whose prologue cannot be relocated: refused (1) or not (0)", want, 1})
+		yield("after-refused-apply")
+	}
 	if tg.origin != nil {
 		b.Func(tg.fn).Origin(tg.origin).Apply(func(a int) int {
 			if vk.InCallAlready() {
@@ -209,7 +225,7 @@ func mockerBody(tg *target, out *[]obs, yield func(string)) {
 		})
 		yield("after-apply")
 		*out = append(*out, obs{tg.name, "after Apply(cb calling origin)", tg.fn(arg), arg + tg.k + 50000})
-	} else if tg.name == "G1" {
+	} else if tg.name == "G1" || tg.name == "G2" {
 		// a callback on a generic function receives the type dictionary in place of its first
 		// argument (recorded in DESIGN 9.4, outside the statements): the generic target is stubbed
 		b.Func(tg.fn).Return(arg + 60000)
@@ -280,6 +296,10 @@ func scenario(sn Scn) (sched.Scenario, func() []obs) {
 	sc.Setup = func() []func() {
 		forceClean()
 		steadySeq = sn.Steady == "sequence"
+		failFirst = map[string]bool{}
+		if sn.Steady == "fail-first" {
+			failFirst[sn.Mockers[0]] = true
+		}
 		b0 = installSteady()
 		vsys.ResetLog()
 		vsys.Logging = true
@@ -326,7 +346,7 @@ func scenario(sn Scn) (sched.Scenario, func() []obs) {
 				return fmt.Sprintf("isolation: mocker of %s: its own target %s returned %d, expected %d", o.who, o.what, o.got, o.want)
 			}
 		}
-		expectObs := 3*len(sn.Mockers) + sn.Callers*sn.CallsPer
+		expectObs := 3*len(sn.Mockers) + sn.Callers*sn.CallsPer + len(failFirst)
 		if len(all()) != expectObs {
 			return fmt.Sprintf("incomplete: %d of %d observations", len(all()), expectObs)
 		}
@@ -388,6 +408,8 @@ func scenarios(thorough bool) []Scn {
 		{"same-page/1mocker+2callers", []string{"F2"}, 2, 2, ""},
 		{"sequence/2callers", nil, 2, 2, "sequence"},
 		{"generic+plain/2mockers", []string{"G1", "F1"}, 0, 0, ""},
+		{"2generic", []string{"G1", "G2"}, 0, 0, ""},
+		{"refused-apply+plain/2mockers", []string{"F1", "F2"}, 1, 1, "fail-first"},
 	}
 	if thorough {
 		s = append(s,
@@ -403,9 +425,12 @@ func warmUp() {
 	// one free run of every body fills goom's caches (function sizes, symbol alignment), so
 	// explored executions are identical to each other
 	var sink []obs
-	for _, name := range []string{"F1", "F2", "F3", "G1"} {
+	for _, name := range []string{"F1", "F2", "F3", "G1", "G2"} {
 		mockerBody(targets[name], &sink, func(string) {})
 	}
+	failFirst = map[string]bool{"F1": true}
+	mockerBody(targets["F1"], &sink, func(string) {})
+	failFirst = map[string]bool{}
 	b0 := installSteady()
 	callerBody(0, 1, &sink, func(string) {})
 	b0.Reset()
